@@ -322,6 +322,9 @@ pub struct TaskCtx {
     pub in_lib: bool,
     /// ticks until this task is next preempted inside a search loop
     pub tick_countdown: u32,
+    /// some library call of the current operation panicked (the panic
+    /// machinery allocates: the allocation oracle does not apply then)
+    pub lib_panicked: bool,
 }
 
 impl TaskCtx {
@@ -337,6 +340,7 @@ impl TaskCtx {
             ran: 0,
             in_lib: false,
             tick_countdown: 0,
+            lib_panicked: false,
         }
     }
 }
